@@ -53,7 +53,7 @@ def _join(a, b):
 
 def path_attr(ex, obj, name, fr):
     t = obj.info["text"]
-    if name in ("joinpath", "resolve", "exists", "mkdir", "expanduser", "is_file", "with_suffix", "stat"):
+    if name in ("joinpath", "resolve", "exists", "mkdir", "expanduser", "is_file", "with_suffix", "stat", "unlink", "rmdir"):
         return VLib("path." + name, obj)
     if name in ("suffix", "stem", "name", "parent") and (is_conc(t) or z3.is_string_value(z3.simplify(t))):
         import pathlib
@@ -116,6 +116,21 @@ def install(cfg: Cfg):
     cfg.lib_overrides[("opaque_attr", "statres")] = lambda ex, obj, name, fr: VInt({"st_mtime_ns": STAT_M, "st_size": STAT_S}[name](obj.info["text"], obj.info["epoch"])) \
         if name in ("st_mtime_ns", "st_size") else ex.throw("AttributeError", name)
     cfg.lib_overrides[("str_of", "path")] = lambda ex, v: VStr(path_text(v))
+    def unlink(ex, f, args, kwargs, fr):
+        """Path.unlink([missing_ok]) / rmdir: the entry is gone afterwards; FileNotFoundError when absent and not missing_ok.
+        Recorded as a 'delete' event with the file system as it was just before (C19: nothing that existed before the call is deleted)."""
+        interfere(ex)
+        p = path_text(f.self_val)
+        before = fs(ex)
+        missing_ok = kwargs.get("missing_ok", args[0] if args else VBool(False))
+        if ex.truth(missing_ok) is not True:
+            if ex.st.branch(z3.Select(before, p) == 0):
+                ex.throw("FileNotFoundError", "no such file")
+        ex.st.ghost["FS"] = z3.Store(before, p, z3.IntVal(0))
+        ex.st.events.append(("delete", p, before))
+        return NONE
+    cfg.lib_overrides["path.unlink"] = unlink
+    cfg.lib_overrides["path.rmdir"] = unlink
     cfg.lib_overrides["path.exists"] = exists
     cfg.lib_overrides["path.mkdir"] = mkdir
     cfg.lib_overrides[("format_path",)] = lambda ex, v: path_text(v)
